@@ -368,17 +368,32 @@ class Piece:
                     raise Undecided("match guard outside the supported shape")
                 kk += 1
             pat2 = text[toks[n0].start:toks[kk].start].strip()
-            if pat2 != pat1:
-                raise Undecided(f"match guard outside the supported shape (`{pat1} if ..` is not followed by `{pat1} =>`)")
             c0, c1, comma2 = arm_body(kk)
             guard = text[toks[gi + 1].start:toks[k].start].strip()
             e1 = text[toks[b0].start:toks[b1].end]
             e2 = text[toks[c0].start:toks[c1].end]
+            keep_second = False
+            if pat2 != pat1:
+                # the next arm may also be the same pattern with its bindings replaced by `_`, or the catch-all `_`:
+                # it then takes exactly the values the guard rejects (and possibly more), and binds nothing
+                ptoks = lex(pat1)
+                binders = {t.text for i, t in enumerate(ptoks) if t.kind == "ident" and t.text[0].islower() and t.text not in ("ref", "mut")
+                           and not (i + 1 < len(ptoks) and ptoks[i + 1].text in ("(", "{", ":"))}
+                wild = "".join("_" if (t.kind == "ident" and t.text in binders) else t.text for t in ptoks if t.text not in ("ref", "mut"))
+                p2 = "".join(t.text for t in lex(pat2))
+                uses = {t.text for t in lex(e2) if t.kind == "ident"}
+                if p2 == wild and not (uses & binders):
+                    keep_second = False
+                elif p2 == "_" and not (uses & binders) and not any(x in uses for x in ("for", "while", "loop")):
+                    keep_second = True
+                else:
+                    raise Undecided(f"match guard outside the supported shape (`{pat1} if ..` is followed by `{pat2} =>`)")
             if not e1.startswith("{"):
                 e1 = "{ " + e1 + " }"
-            if not e2.startswith("{"):
-                e2 = "{ " + e2 + " }"
-            new = f"{pat1} => if {guard} {e1} else {e2}"
+            e2b = e2 if e2.startswith("{") else "{ " + e2 + " }"
+            new = f"{pat1} => if {guard} {e1} else {e2b}"
+            if keep_second:
+                new += f", {pat2} => {e2}"
             self.rewrites_log.append({"rule": "T-CTRL", "file": self.relpath, "item": self.spec,
                                       "from": text[toks[arm0].start:toks[c1].end], "to": new})
             text = text[:toks[arm0].start] + new + text[toks[c1].end:]
@@ -574,6 +589,12 @@ class Piece:
         for k in range(kb, k1):
             if toks[k].text == "cfg" and toks[k + 1].text == "!" and toks[k + 2].text == "(" and toks[k + 3].text == "unix" and toks[k + 4].text == ")":
                 self._add(toks[k].start, toks[k + 4].end, "true", "T-CFG")
+        # T-CONST-STD: associated constants of std types (the installed Verus cannot read them) go through a function of the time prelude
+        if "time" in self.unit.preludes:
+            for k in range(kb, k1 - 3):
+                if toks[k].text == "Duration" and toks[k + 1].text == ":" and toks[k + 2].text == ":" and toks[k + 3].text in ("ZERO", "MAX") \
+                        and toks[k - 1].text != ":":
+                    self._add(toks[k].start, toks[k + 3].end, "crate::duration_zero()" if toks[k + 3].text == "ZERO" else "crate::duration_max()", "T-CONST-STD", order=-99)
         # T-LOG: log::level!( .. )
         k = kb
         while k < k1:
@@ -758,6 +779,34 @@ class Piece:
                         self._add(p, p, "\n" + text + "\n", arule)
                 if toks[k1 - 1].text in (";", "}"):
                     self._add(toks[k1].start, toks[k1].start, "\n" + text + "\n", arule)
+                continue
+            if where == "before_tail":
+                # before the function's final expression (the value it returns when no `return` fires)
+                kt = k1 - 1
+                if toks[kt].text in (";",):
+                    raise Undecided(f"{fn.name}: the body does not end with an expression")
+                # walk back over the tail expression: balanced groups are skipped; it starts after the previous `;`,
+                # after the `{` of the body, or after a `}` that ends a block statement
+                j, pairs = kt, {")": "(", "]": "[", "}": "{"}
+                while j > kb:
+                    tx = toks[j].text
+                    if tx in pairs and not (tx == "}" and j != kt and toks[j + 1].text not in (".", "?", ")", ",", "]")):
+                        depth, o = 0, pairs[tx]
+                        while True:
+                            if toks[j].text == tx:
+                                depth += 1
+                            elif toks[j].text == o:
+                                depth -= 1
+                                if depth == 0:
+                                    break
+                            j -= 1
+                        j -= 1
+                        continue
+                    if tx in (";", "{", "}"):
+                        break
+                    j -= 1
+                p = toks[j + 1].start
+                self._add(p, p, "\n" + text + "\n", arule)
                 continue
             if where == "loop_end":
                 if occ < 1 or occ > len(lps):
